@@ -445,6 +445,9 @@ for _k in ("C01", "C03", "C06", "C07"):
 # with fresh unit keys up to the real room (seeded change C03i)
 for _k in ("C03", "C04", "C10"):
     PROPS[_k]["components"] = list(PROPS[_k]["components"]) + [("sync", ["overfill"], 10, 40), ("unsync", ["overfill"], 4, 40)]
+# the dangling-node windows (skipped nodes of the victim scan) also under memory safety, drops and LRU order
+for _k in ("C08", "C11", "C12"):
+    PROPS[_k]["components"] = list(PROPS[_k]["components"]) + [("sync", ["dangling"], 6, 40)]
 PROPS["C13"]["components"] = list(PROPS["C13"]["components"]) + [("unsync", ["regrow"], 8, 40), ("sync", ["regrow"], 8, 40)]
 PROPS["C14"]["components"] = list(PROPS["C14"]["components"]) + [("unsync", ["regrow", "aging"], 4, 40), ("sync", ["regrow", "aging"], 4, 40)]
 PROPS["C17"]["components"] = list(PROPS["C17"]["components"]) + [("unsync", ["aging"], 6, 40), ("sync", ["aging"], 6, 40)]
